@@ -69,10 +69,19 @@ def STREAM_INV(c, s, k):
             and s._inbound_window_manager.current_window_size <= s._inbound_window_manager.max_window_size
             and s._inbound_window_manager._bytes_processed >= 0
             and s.outbound_flow_control_window <= MAXWIN
-            and s._actual_content_length >= 0)
+            and s._actual_content_length >= 0
+            # role: every stream of a client was opened as a client's stream (own request or a push it
+            # received), every stream of a server as a server's
+            and implies(s.state_machine.client is not None, (s.state_machine.client is True) == c.config.client_side))
 
 
 def GI(c):
+    """Global invariant between public calls: GI0 plus: no registered stream is idle (a stream enters
+    `streams` only together with the frame or call that opens or reserves it)."""
+    return GI0(c) and all(c.streams[k].state_machine.state.value != 0 for k in c.streams)
+
+
+def GI0(c):
     return (16384 <= c.max_outbound_frame_size and c.max_outbound_frame_size <= 16777215
             and 16384 <= c.max_inbound_frame_size and c.max_inbound_frame_size <= 16777215
             and c.highest_inbound_stream_id >= 0 and c.highest_outbound_stream_id >= 0
@@ -149,3 +158,38 @@ def max_concurrent(settings):
 
 def SETTINGS_OK_WEAK(s):
     return all(len(s._settings[k]) >= 1 for k in s._settings)
+
+
+# ---------------------------------------------------------------------------
+# Layer-1 names for what the inbound header pipeline computes (C15/C17).  In proofs these are
+# uninterpreted functions over abstract header lists (h2vc/hdrmodel.py hooks them); natively they
+# run the pipeline stages themselves, so a replay evaluates the same clause text.
+def hdr_in_result(headers, flags, normalize, validate, encoding):
+    """The list _process_received_headers delivers: cookie-joined when `normalize`, decoded text when
+    `encoding` is set (validation does not change it)."""
+    from h2.utilities import normalize_inbound_headers
+    from h2.stream import _decode_headers
+    h = list(headers)
+    if normalize:
+        h = list(normalize_inbound_headers(h, flags))
+    if encoding:
+        h = list(_decode_headers(h, encoding))
+    return h
+
+
+def hdr_in_accepts(headers, flags, normalize, validate, encoding):
+    """The pipeline consumes `headers` completely: conformant when `validate`, decodable when `encoding`."""
+    from h2.utilities import normalize_inbound_headers, validate_headers
+    from h2.stream import _decode_headers
+    from h2.exceptions import ProtocolError
+    h = list(headers)
+    try:
+        if normalize:
+            h = list(normalize_inbound_headers(h, flags))
+        if validate:
+            h = list(validate_headers(h, flags))
+        if encoding:
+            h = list(_decode_headers(h, encoding))
+    except (ProtocolError, UnicodeDecodeError):
+        return False
+    return True
